@@ -697,7 +697,7 @@ class Interp:
             from .verify import exec_for_with_invariant
             return exec_for_with_invariant(self, node, env, inv, qn, k)
         itv = self.eval(node.iter, env)
-        if isinstance(itv, (SymList, EnumSym, RevSym, SymRange)):
+        if isinstance(itv, (SymList, EnumSym, RevSym, SymRange, SliceSym)):
             self.unsupported("loop over a list / range of symbolic length without an invariant", node)
         items = self.iterate(itv, node)
         for x in items:
@@ -1420,7 +1420,7 @@ class Interp:
                 itv = pre.pop(id(g))
             else:
                 itv = self.eval(g.iter, e)
-            if isinstance(itv, (SymList, EnumSym, SymRange, ZipSym)):
+            if isinstance(itv, (SymList, EnumSym, SymRange, ZipSym, SliceSym)):
                 self.unsupported("comprehension over a list of symbolic length", g)
             for x in self.iterate(itv, g):
                 e2 = Env({}, parent=e)
@@ -1476,6 +1476,8 @@ class Interp:
             for L2 in itv.lists[1:]:
                 hi = z3.If(L2.n < hi, L2.n, hi)
             lo, src = z3.IntVal(0), None
+        elif isinstance(itv, SliceSym):
+            lo, hi, src = z3.IntVal(0), itv.n, None
         else:
             L = itv.lst if isinstance(itv, EnumSym) else itv
             lo, hi, src = z3.IntVal(0), L.n, ListView(L)
@@ -1485,7 +1487,10 @@ class Interp:
             if isinstance(itv, SymRange):
                 tv = SInt(j)
             elif isinstance(itv, ZipSym):
-                tv = tuple(self.models.symlist_generic_elem(self, L2, j) for L2 in itv.lists)
+                tv = tuple(self.models.symlist_generic_elem(self, L2.lst, z3.simplify(L2.lo + j)) if isinstance(L2, SliceSym)
+                           else self.models.symlist_generic_elem(self, L2, j) for L2 in itv.lists)
+            elif isinstance(itv, SliceSym):
+                tv = self.models.symlist_generic_elem(self, itv.lst, z3.simplify(itv.lo + j))
             else:
                 el = self.models.symlist_generic_elem(self, L, j)
                 tv = (mk_int(j + itv.start), el) if isinstance(itv, EnumSym) else el
@@ -1511,7 +1516,7 @@ class Interp:
     def e_GeneratorExp(self, node, env):
         g0 = node.generators[0]
         itv = self.eval(g0.iter, env)
-        if isinstance(itv, (SymList, EnumSym, SymRange, ZipSym)):
+        if isinstance(itv, (SymList, EnumSym, SymRange, ZipSym, SliceSym)):
             return self.sym_generator(node, env, itv)
         self._iter_cache = {id(g0): itv}       # evaluated once
         out = []
